@@ -46,8 +46,25 @@ def load_unit(pid):
     return json.load(open(path))
 
 
-def splice_module_line(rel):
-    return f'\n#[cfg(kani)]\n#[path = "{VERIF}/harness/{rel}"]\npub(crate) mod verif_kani;\n'
+def splice_module_line(rel, hroot):
+    return f'\n#[cfg(kani)]\n#[path = "{hroot}/harness/{rel}"]\npub(crate) mod verif_kani;\n'
+
+
+def snapshot_harness(scratch):
+    """Private copy of /verif/{harness,spec,models} for this run (absolute /verif/ paths inside the
+    copies are re-pointed at the copy), so that editing /verif while a check runs cannot disturb it."""
+    root = f"{scratch}/verif"
+    for d in ("harness", "spec", "models"):
+        if os.path.isdir(f"{VERIF}/{d}"):
+            shutil.copytree(f"{VERIF}/{d}", f"{root}/{d}", dirs_exist_ok=True)
+    for dp, _, fs in os.walk(root):
+        for f in fs:
+            if f.endswith(".rs"):
+                t = open(f"{dp}/{f}").read()
+                t2 = re.sub(r'"/verif/(harness|spec|models)/', lambda m: f'"{root}/{m.group(1)}/', t)
+                if t2 != t:
+                    open(f"{dp}/{f}", "w").write(t2)
+    return root
 
 
 def prepare_scratch(scratch, modules, contracts, use_models, for_playback=False):
@@ -57,6 +74,7 @@ def prepare_scratch(scratch, modules, contracts, use_models, for_playback=False)
     changes = []
     dst = f"{scratch}/repo"
     os.makedirs(scratch, exist_ok=True)
+    hroot = snapshot_harness(scratch)
     r = subprocess.run(["rsync", "-a", "--delete", "--exclude", "target", "--exclude", ".git",
                         "--exclude", "examples", "--exclude", "docs", f"{REPO}/", f"{dst}/"],
                        capture_output=True, text=True)
@@ -78,14 +96,14 @@ def prepare_scratch(scratch, modules, contracts, use_models, for_playback=False)
     # harness modules (add-only)
     for rel in modules:
         src = f"{dst}/src/{rel}"
-        hp = f"{VERIF}/harness/{rel}"
+        hp = f"{hroot}/harness/{rel}"
         if not os.path.exists(src):
             raise Undecided(f"lost anchor: source file src/{rel} no longer exists")
         if not os.path.exists(hp):
             raise Undecided(f"harness module {hp} missing")
         with open(src, "a") as f:
-            f.write(splice_module_line(rel))
-        changes.append(f"src/{rel}: appended `#[cfg(kani)] mod verif_kani` -> {hp}")
+            f.write(splice_module_line(rel, hroot))
+        changes.append(f"src/{rel}: appended `#[cfg(kani)] mod verif_kani` -> /verif/harness/{rel} (run-private copy)")
 
     # contract attributes (add-only): inserted above the named fn inside the named impl
     for c in contracts:
@@ -125,7 +143,7 @@ def prepare_scratch(scratch, modules, contracts, use_models, for_playback=False)
             open(src, "w").write("\n".join(out))
             changes.append(f"src/{rel}: {n} `use std::collections::..` line(s) cfg-switched to crate::verif_models under cfg(kani)")
         with open(f"{dst}/src/lib.rs", "a") as f:
-            f.write(f'\n#[cfg(kani)]\n#[path = "{VERIF}/models/verif_models.rs"]\nmod verif_models;\n')
+            f.write(f'\n#[cfg(kani)]\n#[path = "{hroot}/models/verif_models.rs"]\nmod verif_models;\n')
         changes.append("src/lib.rs: appended `#[cfg(kani)] mod verif_models` (two-slot HashMap/HashSet stand-ins)")
 
     # offline
@@ -254,7 +272,7 @@ def classify(h, rc, out, wall, timed_out):
     def harness_bug(c):
         # arithmetic overflow / index out of bounds raised by the harness text itself (not by an
         # obligation it asserts) is a defect of the harness: undecided, never a violation
-        return ("verif/harness/" in c["location"] and
+        return ("/harness/" in c["location"] and "verif" in c["location"] and
                 re.match(r"(attempt to .* with overflow|index out of bounds|attempt to divide)", c["description"]) is not None)
     infra_fail = [c for c in failures if any(k in c["description"] for k in INFRA_DESCR) or harness_bug(c)]
     real_fail = [c for c in failures if c not in infra_fail]
@@ -518,7 +536,7 @@ def main():
         for h in hs:
             rel = h["name"].split("::verif_kani::")[0].replace("::", "/") + ".rs"
             h["module_rel"] = rel
-            h["module_file"] = f"{VERIF}/harness/{rel}"
+            h["module_file"] = f"{scratch}/verif/harness/{rel}"
         modules = unit.get("modules", [])
         splice_changes = prepare_scratch(scratch, modules, unit.get("contracts", []), unit.get("use_models", []))
         splice_changes += generate_files(scratch, unit.get("generate", []))
